@@ -139,7 +139,12 @@ fn check_list(rules: &[&str], reqs: &[Req], res: &ResourceStorage, l: &mut Local
     incr.optimize();
     l.states += 5;
     let tags_present = vh::alpha::tags_in(rules);
-    for tagset in subsets_of(&tags_present) {
+    // answers of the unoptimised blocker under the last tag set (for the warm-then-optimise pass)
+    let mut last_answers: Vec<Option<Ans>> = vec![];
+    let all_tagsets = subsets_of(&tags_present);
+    for (ti, tagset) in all_tagsets.iter().enumerate() {
+        let tagset = tagset.clone();
+        let is_last = ti + 1 == all_tagsets.len();
         let tagrefs: Vec<&str> = tagset.iter().map(|s| s.as_str()).collect();
         plain.use_tags(&tagrefs);
         opt.use_tags(&tagrefs);
@@ -166,9 +171,15 @@ fn check_list(rules: &[&str], reqs: &[Req], res: &ResourceStorage, l: &mut Local
                         case: json!({"rules": rules, "tags": tagset, "url": rq.url, "source": rq.source, "type": rq.ty}),
                         size: rules.len() as u64,
                     });
+                    if is_last {
+                        last_answers.push(None);
+                    }
                     continue;
                 }
             };
+            if is_last {
+                last_answers.push(Some(a.clone()));
+            }
             l.compared += 4;
             if a.0.matched || a.0.exception || a.0.redirect.is_some() || a.0.rewritten.is_some() || a.1.is_some() {
                 l.nontrivial += 1;
@@ -186,6 +197,34 @@ fn check_list(rules: &[&str], reqs: &[Req], res: &ResourceStorage, l: &mut Local
             }
         }
     }
+    // sixth subject: the unoptimised blocker has by now answered every request (its compiled
+    // regexes are cached); optimize() on that warm blocker, then every request once more
+    if last_answers.len() == reqs.len() {
+        plain.optimize();
+        l.states += 1;
+        let tagset = all_tagsets.last().cloned().unwrap_or_default();
+        for (rq, before) in reqs.iter().zip(last_answers.iter()) {
+            let before = match before {
+                Some(b) => b,
+                None => continue,
+            };
+            l.transitions += 1;
+            l.compared += 1;
+            match ask(&plain, res, rq) {
+                Ok(after) => {
+                    if let Some(field) = diff(before, &after) {
+                        l.mismatch(Mismatch {
+                            sig: format!("{}.warm-then-optimize", classify(rules, field)),
+                            what: format!("rules {:?} tags {:?} request ({}, {}, {}): unoptimised {:?}, the same blocker after all queries and optimize() {:?}", rules, tagset, rq.url, rq.source, rq.ty, before, after),
+                            case: json!({"rules": rules, "tags": tagset, "url": rq.url, "source": rq.source, "type": rq.ty}),
+                            size: (rules.len() * 10000 + tagset.len() * 1000 + rq.url.len()) as u64,
+                        });
+                    }
+                }
+                Err(loc) => l.mismatch(Mismatch { sig: format!("c05.panic@{}", loc), what: format!("panic after optimize() on the warm blocker, rules {:?}", rules), case: json!({"rules": rules, "tags": tagset, "url": rq.url, "source": rq.source, "type": rq.ty}), size: rules.len() as u64 }),
+            }
+        }
+    }
 }
 
 fn replay(case: &Value, l: &mut Local) {
@@ -196,7 +235,11 @@ fn replay(case: &Value, l: &mut Local) {
     let source = case["source"].as_str().unwrap_or("").to_string();
     let ty: &'static str = Box::leak(case["type"].as_str().unwrap_or("script").to_string().into_boxed_str());
     if let Ok(req) = adblock::request::Request::new(&url, &source, ty) {
-        check_list(&refs, &[Req { req, url, source, ty }], &res, l);
+        // the pool's whole request universe first (the warm-then-optimise subject depends on what was
+        // asked before), the witness request last
+        let mut reqs = requests();
+        reqs.push(Req { req, url, source, ty });
+        check_list(&refs, &reqs, &res, l);
     }
 }
 
@@ -389,7 +432,7 @@ fn check(ctx: &Ctx) -> i32 {
     });
     ctx.finish(
         "model_checking",
-        "all ordered lists of <= k rules and all k'-element subsets of the rule alphabet (rules that share the wildcard / 'adv*' buckets and differ in one fusion-relevant attribute: pattern, exception, important, tag, type, party, anchors, regex, match-case, hostname, domain, redirect, csp, removeparam); five real blockers per list (built optimised, built unoptimised, unoptimised + optimize() twice, unoptimised + optimize() after every tag switch, built optimised without the last rule + add_filter(last rule) + optimize()), under every tag subset, against the request universe; all verdict fields and the CSP set must agree; plus n same-bucket fusable rules for every n up to a bound (group sizes; three families: plain, small regexes, full regexes with counted repetitions), plus the rule cube: all pairs (thorough: triples) of 53 pattern shapes under each of 19 option sets, as blocking rules and as exceptions, and 12 same-bucket patterns under every two different option sets; non-trivial = the unoptimised engine reports anything",
+        "all ordered lists of <= k rules and all k'-element subsets of the rule alphabet (rules that share the wildcard / 'adv*' buckets and differ in one fusion-relevant attribute: pattern, exception, important, tag, type, party, anchors, regex, match-case, hostname, domain, redirect, csp, removeparam); six real blockers per list (the unoptimised one once more after it answered every request and was then optimised in place, built optimised, built unoptimised, unoptimised + optimize() twice, unoptimised + optimize() after every tag switch, built optimised without the last rule + add_filter(last rule) + optimize()), under every tag subset, against the request universe; all verdict fields and the CSP set must agree; plus n same-bucket fusable rules for every n up to a bound (group sizes; three families: plain, small regexes, full regexes with counted repetitions), plus the rule cube: all pairs (thorough: triples) of 53 pattern shapes under each of 19 option sets, as blocking rules and as exceptions, and 12 same-bucket patterns under every two different option sets; non-trivial = the unoptimised engine reports anything",
         &["differential: the unoptimised engine is the reference (its own correctness is C01's subject)"],
     )
 }
